@@ -117,6 +117,7 @@ type Engine struct {
 	repo      string
 	contractHome map[*Contract]string
 	immutable map[string]bool // pkgpath.Name of package-level variables treated as constants
+	ghostVars   map[string]SVar   // pkgpath.name -> declaration
 	ghostFields map[string][]GhostField // pkgpath.TypeName -> ghost fields
 	ghostFieldHome map[string]string
 	sweepAssumed   map[string][]string
